@@ -166,6 +166,9 @@ type loadReq struct {
 
 func loadRequests(r *vh.Rand, stream string, n int, limit int) []loadReq {
 	var out []loadReq
+	if stream == "px" {
+		return pxLoadRequests(r, n)
+	}
 	// vals stream: a few kinds per load case, so that several in-flight requests share each route
 	var valSet []valKind
 	if stream == "vals" {
@@ -271,6 +274,9 @@ func loadScript(stream string) string {
 	if stream == "reg" {
 		return regScriptSrc
 	}
+	if stream == "px" {
+		return pxScript()
+	}
 	return "<?php\nuse Net\\Http\\Server;\n$server = new Server('127.0.0.1', 0);\n" + h + "\nverif_expose($server);\n"
 }
 
@@ -296,6 +302,7 @@ func loadChild(args []string) int {
 		lc.Limit = 500
 	}
 	reqs := loadRequests(r, lc.Stream, lc.InFlight, lc.Limit)
+	var pxAll []string // px stream: the x of every request of the case
 	if lc.Stream == "vals" || lc.Stream == "depth" || lc.Stream == "reg" {
 		// depth: every request descends, all meet at the bottom (the frames of all of them are held
 		// at the same time), then they come back up racing each other
@@ -318,6 +325,20 @@ func loadChild(args []string) int {
 	for i := range reqs {
 		reqs[i].want = srv.serve(reqs[i].w)
 		res.Routes = append(res.Routes, reqs[i].w.URL)
+		if lc.Stream == "px" {
+			// served alone (after other requests): no panic, the request's own x in the header the handler
+			// computes from n reads, nobody else's x anywhere
+			reqs[i].want = canonResp(reqs[i].want)
+			pxAll = append(pxAll, reqs[i].own)
+			if reqs[i].want.Panic != "" {
+				res.Panics = append(res.Panics, "solo "+reqs[i].w.URL+": "+reqs[i].want.Panic)
+			} else if !strings.Contains(reqs[i].want.Header, "X-Who:"+reqs[i].own+"*") {
+				res.NDiff++
+				res.NOwn++
+				res.Diffs = append(res.Diffs, loadDiff{reqs[i].w.URL, reqs[i].want.String(), "a response whose X-Who header is x=" + reqs[i].own + " read n times (served alone, after other requests)", "own"})
+			}
+			continue
+		}
 		if lc.Stream == "reg" {
 			reqs[i].want = canonResp(reqs[i].want)
 			if reqs[i].reg != nil && reqs[i].want != *reqs[i].reg {
@@ -348,6 +369,16 @@ func loadChild(args []string) int {
 			res.Diffs = append(res.Diffs, loadDiff{reqs[i].w.URL, reqs[i].want.String(), "a response carrying x=" + x + " (served alone, after other requests)", "own"})
 		}
 	}
+	if lc.Stream == "px" {
+		// x values are assigned in increasing order: a foreign x in a solo response can only be an earlier one
+		for i := range reqs {
+			if f := pxForeign(reqs[i].want, reqs[i].own, pxAll); f != "" && reqs[i].want.Panic == "" {
+				res.NDiff++
+				res.NOwn++
+				res.Diffs = append(res.Diffs, loadDiff{reqs[i].w.URL, reqs[i].want.String(), "no trace of x=" + f + ", the parameter of a request served before (served alone)", "foreign"})
+			}
+		}
+	}
 	var mu sync.Mutex
 	for round := 0; round < lc.Rounds; round++ {
 		var wg sync.WaitGroup
@@ -361,7 +392,7 @@ func loadChild(args []string) int {
 				defer wg.Done()
 				<-start
 				got := srv.serve(q.w)
-				if lc.Stream == "reg" {
+				if lc.Stream == "reg" || lc.Stream == "px" {
 					got = canonResp(got)
 				}
 				if srv.gate.bar != nil {
@@ -390,10 +421,13 @@ func loadChild(args []string) int {
 				if lc.Stream == "reg" {
 					class = regClass(got, q.want)
 				}
-				if class == "own" {
+				if lc.Stream == "px" && pxForeign(got, q.own, pxAll) != "" {
+					class = "foreign" // another in-flight request's x in this response
+				}
+				if class == "own" || class == "foreign" {
 					res.NOwn++
 				}
-				if len(res.Diffs) < 6 || (class == "own" && res.NOwn <= 3) {
+				if len(res.Diffs) < 6 || ((class == "own" || class == "foreign") && res.NOwn <= 3) {
 					res.Diffs = append(res.Diffs, loadDiff{q.w.URL, got.String(), q.want.String(), class})
 				}
 			}(reqs[i])
@@ -484,6 +518,22 @@ func runLoad(c *vh.Ctx, lc loadCase) {
 		c.Violation("load:handler-panic", "a handler panicked under parallel load: "+p, lc)
 	}
 	sgSeen := false
+	if lc.Stream == "px" {
+		c.HitN("load-px-responses-differing-from-solo", res.NDiff)
+		c.HitN(fmt.Sprintf("load-px-differing:inflight=%d", lc.InFlight), res.NDiff)
+		for _, d := range res.Diffs {
+			sig, what := "isolation:proxy:response", "differs from the same request served alone"
+			if d.Class == "foreign" {
+				sig, what = "isolation:proxy:foreign-data", "carries the x of ANOTHER request in flight"
+			}
+			if strings.Contains(d.Want, "(served alone") { // found in the solo pass, before any load
+				c.Violation(sig, fmt.Sprintf("served ALONE, after other requests of the proxy routes had finished, %s answered %q; expected %s", d.URL, clip(d.Got, 700), d.Want), lc)
+				continue
+			}
+			c.Violation(sig, fmt.Sprintf("under parallel load (%d requests in flight on the proxy routes: every method of $req / $res called in loops at shared call sites, × %d rounds; %d of %d responses differ) the response of %s %s: got %q, served alone %q", lc.InFlight, lc.Rounds, res.NDiff, res.Requests, d.URL, what, clip(d.Got, 700), clip(d.Want, 700)), lc)
+		}
+		return
+	}
 	if lc.Stream == "reg" {
 		for _, d := range res.Diffs {
 			c.Violation("registry:load:"+strings.TrimPrefix(d.Class, "registry:"), fmt.Sprintf("under parallel load (%d requests in flight on the registry routes, the parked ones waiting until the others are parked or have finished, × %d rounds) %s answered %q but %q when served alone", lc.InFlight, lc.Rounds, d.URL, d.Got, d.Want), lc)
@@ -520,6 +570,13 @@ func runLoad(c *vh.Ctx, lc loadCase) {
 			c.Hit("load-sg-leak-observed")
 		}
 	}
+}
+
+func clip(s string, n int) string {
+	if len(s) > n {
+		return s[:n] + "…"
+	}
+	return s
 }
 
 func firstLines(s string, n int) string {
@@ -581,6 +638,7 @@ func loadStreams(c *vh.Ctx, limits []int) {
 	}
 	depthLoadStreams(c, limits)
 	regLoadStreams(c)
+	pxLoadStreams(c)
 	for _, n := range []int{8, 32} {
 		runLoad(c, loadCase{Stream: "sg", Seed: c.Rand.U64() % 1000000, InFlight: n, Rounds: c.N(20, 200)})
 	}
